@@ -9,3 +9,5 @@
 (declare-fun wfAstAll (Seq_Any) Bool)
 (assert (forall ((a Any)) (! (= (wfAst a) (or (isPathIRI a) (and (isPathAND a) (wfAstAll (|S_path_AND.body| (unbox_path_AND a)))) (and (isPathOR a) (wfAstAll (|S_path_OR.body| (unbox_path_OR a)))))) :pattern ((wfAst a)))))
 (assert (forall ((s Seq_Any) (i Int)) (! (=> (and (wfAstAll s) (<= 0 i) (< i (len_Any s))) (wfAst (at_Any s i))) :pattern ((wfAstAll s) (at_Any s i)))))
+; the error ParsePath answers for a string (nil when it is a path), named as a function (A-PURE)
+(declare-fun pathErrF (String) Any)
